@@ -148,13 +148,16 @@ func TestVerifC20(t *testing.T) {
 	idx := 0
 	run := func(c *vfc20.Case, src string) {
 		c.Mode = "plain"
-		// Replay itself never selects a DB: one keyspace, one value per key name
+		// Replay itself never selects a DB and has no filter: one keyspace; one value per key name, unless the case is
+		// about two snapshot keys on one target key (then they all stay: a key twice in one DB)
+		collide := c.Collides()
+		c.TDB, c.DBMap, c.FDB, c.FPre = 0, nil, nil, nil
 		seenK := map[string]bool{}
 		var kvs []vfc20.KVSpec
 		for _, kv := range c.KVs {
 			kv.DB = 0
 			tk := string(c.TKey(vfutil.UnHex(kv.Key)))
-			if !seenK[tk] {
+			if !seenK[tk] || collide {
 				seenK[tk] = true
 				kvs = append(kvs, kv)
 			}
@@ -191,7 +194,7 @@ func TestVerifC20(t *testing.T) {
 			s.Count("viol_bin-key-changed")
 			s.Violate("bin-key-changed", "the bins of one value must carry the same key (it routes them to one worker and is rewritten per bin): "+r.BinKeyChanged, c.Replay())
 		}
-		vfc20.Check(s, c, r)
+		vfc20.Monitors(s, c, r)
 		vfc20.Stats(s, c, r, src)
 	}
 	if p := os.Getenv("VERIF_REPLAY"); p != "" {
@@ -240,6 +243,10 @@ func TestVerifC20(t *testing.T) {
 	for _, c := range vfc20.ExhaustiveHashTag("plain") {
 		run(c, "exhaustive-hashtag")
 	}
+	// two snapshot keys replayed to one key ({a}b0 + ab0 under replaceHashTag; a key twice)
+	for _, c := range vfc20.ExhaustiveCollide("plain") {
+		run(c, "exhaustive-collide")
+	}
 	// the same scopes with parser and replayer alternating (entry n+1 parsed after entry n was replayed)
 	for _, c := range vfc20.ExhaustiveHashTag("plain") {
 		c.Interleave = true
@@ -263,6 +270,10 @@ func TestVerifC20(t *testing.T) {
 	r := vfutil.NewRand(vfutil.Seed())
 	n := vfutil.Scale(1500, 30000)
 	for i := 0; i < n; i++ {
+		if i%8 == 7 {
+			run(vfc20.GenCollide(r.Fork(), "plain"), "random-collide")
+			continue
+		}
 		run(vfc20.GenCase(r.Fork(), "plain", 1), "random")
 	}
 }
